@@ -25,6 +25,8 @@ pub(crate) enum PhysLayer {
     Serial(tokio_serial::SerialStream),
     #[cfg(test)]
     Mock(sfio_tokio_mock_io::Mock),
+    #[cfg(stepfunc_dnp3_verif)]
+    Verif(crate::verif::io::VerifIo),
 }
 
 impl std::fmt::Debug for PhysLayer {
@@ -38,6 +40,8 @@ impl std::fmt::Debug for PhysLayer {
             PhysLayer::Serial(_) => f.write_str("Serial"),
             #[cfg(test)]
             PhysLayer::Mock(_) => f.write_str("Mock"),
+            #[cfg(stepfunc_dnp3_verif)]
+            PhysLayer::Verif(_) => f.write_str("Verif"),
         }
     }
 }
@@ -66,6 +70,11 @@ impl PhysLayer {
             }
             #[cfg(test)]
             Self::Mock(x) => {
+                let count = x.read(buffer).await?;
+                (count, PhysAddr::None)
+            }
+            #[cfg(stepfunc_dnp3_verif)]
+            Self::Verif(x) => {
                 let count = x.read(buffer).await?;
                 (count, PhysAddr::None)
             }
@@ -106,6 +115,8 @@ impl PhysLayer {
             Self::Serial(x) => x.write_all(data).await,
             #[cfg(test)]
             Self::Mock(x) => x.write_all(data).await,
+            #[cfg(stepfunc_dnp3_verif)]
+            Self::Verif(x) => x.write_all(data).await,
         }
     }
 }
